@@ -257,7 +257,8 @@ fn run_check(id: &str, thorough: bool) -> i32 {
     let distinct: u64 = results.iter().map(|r| r.distinct_outcomes + r.nontrivial).sum();
     let nontrivial_runs: u64 = results.iter().map(|r| r.nontrivial_outcomes).sum();
     let capped: Vec<String> = results.iter().filter(|r| r.capped || r.depth_capped > 0).map(|r| format!("{} (level completed {})", r.name, r.level_completed)).collect();
-    let min_level = results.iter().filter(|r| r.engine != "I").map(|r| r.level_completed).min();
+    let min_level = results.iter().filter(|r| matches!(r.engine.as_str(), "W" | "P" | "B")).map(|r| r.level_completed).min();
+    let min_bound = results.iter().filter(|r| matches!(r.engine.as_str(), "W" | "P" | "B")).map(|r| r.bound).min();
     let mut samples: Vec<Value> = Vec::new();
     let pick = (seed as usize) % results.len().max(1);
     for (i, r) in results.iter().cycle().skip(pick).take(results.len()).enumerate() {
@@ -281,6 +282,7 @@ fn run_check(id: &str, thorough: bool) -> i32 {
                 "evaluations": r.evaluations, "capped": r.capped, "depth_capped_runs": r.depth_capped, "extra": r.extra,
             })
         })
+        .take(60)
         .collect();
     let rules: Vec<String> = results.iter().filter_map(|r| r.rule.clone()).collect();
     let w_rule = "engine W/P: every history with at most `deviation_bound` departures from the default environment answer (reordered RPC answers and deliveries, part failures, every pay ending contract A1 allows, time steps on either side of each deadline, block events, write/read faults, whole-node crashes with every applied/lost flavour), each run to the drained end on the real code compiled from /repo/src; a history is distinct when its complete observation log differs";
@@ -299,6 +301,8 @@ fn run_check(id: &str, thorough: bool) -> i32 {
         "exhaustive": capped.is_empty(),
         "caps_hit": capped,
         "deviation_level_completed_min": min_level,
+        "deviation_bound_min_over_scenarios": min_bound,
+        "jobs_total": results.len(),
         "determinism_rechecks": results.iter().map(|r| r.rechecks).sum::<u64>(),
         "jobs": per_job,
         "known_findings_reproduced": known_hits,
